@@ -258,7 +258,71 @@ def pickling(ctx) -> None:
     ctx.floor('R-PICKLE', n, 4)
 
 
+def key_gate(ctx) -> None:
+    """Every way out of Generation.Key.__new__ with a key passes the natural-number gate: each return hands out the *checked*
+    instance and stands behind ``instance < cls.MIN`` being false (no early return for some input representation)."""
+    prog = ctx.prog
+    new = prog.func(f'{MINOR}:Generation.Key.__new__')
+    rets = [r for r in core.walk_local(new.node) if isinstance(r, ast.Return)]
+    ctx.floor('C18.key-gate', len(rets), 1)
+    for r in rets:
+        g = cfg.cguards(r, new.node, siblings=True)
+        ok = r.value is not None and core.src(r.value) == 'instance' and ('instance < cls.MIN', False) in g
+        ctx.check(ok, 'C18.keys', new, f'a generation key is handed out only after the natural-number check (return `{core.src(r.value) if r.value else None}` under {g})', r, key='generation:gate')
+    asg = [a for a in core.walk_local(new.node) if isinstance(a, ast.Assign) and core.src(a.targets[0]) == 'instance']
+    ctx.check(len(asg) == 1 and core.src(asg[0].value) == f'super().__new__(cls, str({new.param_names[1]}))', 'C18.keys', new, 'the key is parsed from its textual form (so that "1", 1 and Key(1) are the same key, floats and garbage are refused)', asg[0] if asg else new.node, key='generation:parse')
+
+
+def package_content(ctx) -> None:
+    """The written manifest is the only manifest of a package: the source tree is archived under tree-relative names, and the
+    filter that skips the tree's own descriptor judges the very name the entry gets in the archive."""
+    prog = ctx.prog
+    create = prog.func(f'{DIST}:Package.create')
+    wa = create.nested('writeall').inlined()
+    valid = create.nested('writeall').nested('valid')
+    writes = [c for c in core.calls_in(wa.node) if isinstance(c.func, ast.Attribute) and c.func.attr == 'write' and len(c.args) == 2]
+    valids = [c for c in core.calls_in(wa.node) if core.src(c.func) == 'valid' and len(c.args) == 1]
+    ok = len(writes) == 1 and len(valids) == 1 and core.src(valids[0].args[0]) == core.src(writes[0].args[1])
+    ctx.check(ok, 'C18.package', wa, f'the entry filter judges the archive name of the entry (valid({core.src(valids[0].args[0]) if valids else None}) vs write(..., {core.src(writes[0].args[1]) if writes else None}))', writes[0] if writes else wa.node, key='writeall:filter-vs-arcname')
+    if writes:
+        arc = core.src(writes[0].args[1])
+        ctx.check(arc.endswith('.relative_to(root)') and core.src(writes[0].args[0]) == arc[:-len('.relative_to(root)')], 'C18.package', wa, 'entries are archived under their tree-relative names', writes[0], key='writeall:relative')
+        g = cfg.cguards(writes[0], wa.node, siblings=True)
+        ctx.check((f'valid({arc})', True) in g, 'C18.package', wa, f'only valid entries are written (guards {g})', writes[0], key='writeall:guard')
+    ret = next((r for r in core.walk_local(valid.node) if isinstance(r, ast.Return)), None)
+    f = valid.param_names[0]
+    ctx.check(ret is not None and f'{f} != descriptor' in core.src(ret.value) and isinstance(ret.value, ast.BoolOp) and isinstance(ret.value.op, ast.And), 'C18.package', valid, 'the tree\'s own descriptor is skipped', valid.node, key='valid:descriptor')
+    text = core.src(create.node)
+    ctx.check("descriptor = Manifest.path('.')" in text and 'package.write(Manifest.path(temp), descriptor)' in text, 'C18.package', create, 'the freshly written manifest is stored under the (relative) descriptor name the filter skips', create.node, key='create:descriptor')
+
+
+def component_names(ctx) -> None:
+    """A component module is taken as absolute only when it lies *inside* the package: the prefix test includes the dot, so a
+    sibling whose name merely starts with the package name (package ``churn``, module ``churn_source``) stays relative."""
+    prog = ctx.prog
+    load = prog.func(f'{BODY}:Components.load')
+    sw = [c for c in core.calls_in(load.node) if isinstance(c.func, ast.Attribute) and c.func.attr == 'startswith' and core.src(c.func.value) == 'name' and len(c.args) == 1 and 'err' not in core.src(c.args[0])]
+    ctx.floor('C18.components', len(sw), 1)
+    for c in sw:
+        arg = c.args[0]
+        defs = [a.value for a in core.walk_local(load.node) if isinstance(a, ast.Assign) and core.src(a.targets[0]) == core.src(arg)] if isinstance(arg, ast.Name) else [arg]
+
+        def dotted_end(e: ast.AST) -> bool:
+            if isinstance(e, ast.IfExp):
+                return dotted_end(e.body) and (dotted_end(e.orelse) or core.is_const(e.orelse, ''))
+            if isinstance(e, ast.JoinedStr):
+                return bool(e.values) and isinstance(e.values[-1], ast.Constant) and str(e.values[-1].value).endswith('.')
+            if isinstance(e, ast.BinOp) and isinstance(e.op, ast.Add):
+                return isinstance(e.right, ast.Constant) and str(e.right.value).endswith('.')
+            return False
+
+        ctx.check(bool(defs) and all(dotted_end(d) for d in defs), 'C18.components', load, f'the "already absolute" test compares against the package prefix *including the dot* (`{core.src(arg)}` = {[core.src(d) for d in defs]})', c, key='load:prefix-dot')
+
+
 def run(ctx) -> None:
+    key_gate(ctx)
+    package_content(ctx)
+    component_names(ctx)
     tag_tables(ctx)
     manifest_tables(ctx)
     key_types(ctx)
